@@ -74,6 +74,14 @@ CLAIMED = {
         "Trusted: the rewrite functions in einxverif/props/c07.py (each implements the expansion the documentation states); einx is compared with itself, C01 pins the meaning of long forms.",
         "DESIGN.md §4 C07",
     ),
+    "C12": (
+        "bounded-exhaustive enumeration of token sequences + property-based text fuzzing with round-trip / spacing / quoting oracles",
+        "Every token sequence up to the bound is enumerated (exhaustive: true for that sub-space) and random text, printed valid descriptions, token mutations and "
+        "deep nestings are generated; oracles: totality (tree or einx SyntaxError quoting the caller's string with in-range carets), parse(str(tree)) == tree, invariance "
+        "under redundant spaces, and no SyntaxError about foreign text from public operations. Exhaustive within the bound, exploration beyond.",
+        "Trusted: the harness's definition of 'redundant space' (DESIGN C12 guards) and its structural tree normal form (unnamed-axis identity and ellipsis ids normalised).",
+        "DESIGN.md §4 C12",
+    ),
 }
 NOT_YET = "check not built yet in this round (see DESIGN.md §8 build order); the property has an executable oracle and will be claimed once its check is registered"
 
